@@ -3,6 +3,11 @@
 Real StaticFileHandler behind HTTPServer over files of sizes 0,1,2,10,255,70000.
 Oracle: RFC 7233 single-range arithmetic + a strict `bytes=` grammar + a small
 304 decision table; responses are delimited by the strict response reader.
+
+History cases: one path is written, requested, rewritten (other length / content /
+mtime, in place or by rename) and requested again through the same handler class
+and application; every response is judged against the file as it is when the
+request is made.
 """
 from __future__ import annotations
 
@@ -20,19 +25,22 @@ PROP = "C27"
 META = {
     "level": "exploration",
     "technique": "RFC 7233 single-range arithmetic + strict Range grammar + 304 decision table compared with the delimited response (status, Content-Range, Content-Length, body), GET vs HEAD pairing",
-    "level_text": "For files of 0/1/2/10/255/70000 bytes, Range strings from a grammar of valid specs (positions around 0, size-1, size, size+1, 10^20; suffix lengths 0,1,size,size+1) and invalid ones (signs, inner spaces, underscores, NBSP, hex, floats, double dashes, other units, multiple ranges) crossed with If-None-Match / If-Modified-Since variants are requested with GET and HEAD through the real server. Every response must be one of: 200 + whole file, 206 + exact Content-Range + exactly those bytes, 416 + 'bytes */size', 304 without body; Content-Length must frame the body; a syntactically invalid Range must change nothing; HEAD must equal GET minus body.",
+    "level_text": "For files of 0/1/2/10/255/70000 bytes, Range strings from a grammar of valid specs (positions around 0, size-1, size, size+1, 10^20; suffix lengths 0,1,size,size+1) and invalid ones (signs, inner spaces, underscores, NBSP, hex, floats, double dashes, other units, multiple ranges) crossed with If-None-Match / If-Modified-Since variants are requested with GET and HEAD through the real server. Every response must be one of: 200 + whole file, 206 + exact Content-Range + exactly those bytes, 416 + 'bytes */size', 304 without body; Content-Length must frame the body; a syntactically invalid Range must change nothing; HEAD must equal GET minus body. In history cases a path is rewritten between requests (2-4 versions of different length, content and mtime, in place or by atomic rename, first request after a rewrite being any of whole-file/range/suffix/conditional GET or HEAD) and the same oracle is applied with the current content, size, mtime and ETag.",
     "level_note": "Trusts the strict Range regex and 20-line range arithmetic. Not judged (executed, internal consistency only): unit spelled in another case, empty list elements ('bytes=0-1,'), whether an unsatisfiable or inverted range is answered 416 or ignored (both accepted), a server ignoring a valid range (200 + whole file accepted), obsolete date formats, malformed If-None-Match lists. Non-ASCII digits cannot reach int() through a latin-1 header and are only exercised as bytes.",
     "design_ref": "DESIGN.md §4 C27",
     "engine": "wire",
 }
-RULE = ("a case is (file size, Range header value or none, conditional header variants, method); non-trivial when it "
-        "carries a Range that the strict grammar classifies as valid-partial or invalid, or a crisp conditional; "
-        "distinct by the case tuple")
+RULE = ("a case is (file size, Range header value or none, conditional header variants, method), or a history "
+        "(path, [write version | request]...) on one path; non-trivial when it "
+        "carries a Range that the strict grammar classifies as valid-partial or invalid, or a crisp conditional "
+        "(history: at least one request after a rewrite that changed the size); distinct by the case tuple")
 FLOORS = {"quick": 6000, "thorough": 60000}
 ASSUMPTIONS = ["strict single-range grammar = RFC 7233 byte-ranges-specifier with exactly one spec, lower-case unit",
-               "file does not change during the shard"]
+               "files change only between requests (history cases rewrite them while no request is in flight), never during one"]
 REQUIRED_COUNTERS = ["oracle_evals", "range_valid_evals", "range_invalid_evals", "expect_304_evals", "head_pair_evals",
-                     "status_206", "status_416", "status_304", "safety_evals"]
+                     "status_206", "status_416", "status_304", "safety_evals", "history_cases", "history_rewrites",
+                     "history_requests_after_rewrite", "history_size_changed_evals", "history_first_after_rewrite_ranged",
+                     "history_first_after_rewrite_head", "history_stale_validator_evals"]
 
 SIZES = [0, 1, 2, 10, 255, 70000]
 MTIME = 1600000000
@@ -104,9 +112,45 @@ def gen_cond(rng):
     return conds
 
 
+HIST_SIZES = [0, 1, 2, 3, 10, 50, 80, 255, 256, 1000]
+HIST_NAMES = ["m0.bin", "m1.bin", "sub/m2.bin"]
+
+
+def vcontent(n, ver):
+    """Content of version `ver` of a rewritten file: differs from every other version at every position."""
+    return bytes((i * 7 + (i >> 8) * 13 + n + 31 * ver + 5) % 251 for i in range(n))
+
+
+def gen_history(rng):
+    """One path: write v0, requests, rewrite, requests ...; sizes mostly differ between consecutive versions, the
+    mtime moves forward, backward or not at all, requests aim at positions around the current AND the previous size."""
+    steps = []
+    prev = None
+    mt = rng.choice([0, 0, 7200])
+    for ver in range(rng.choice([2, 2, 3, 4])):
+        n = rng.choice(HIST_SIZES) if rng.random() < 0.9 else rng.choice([70000, 65536, rng.randint(0, 400)])
+        if prev is not None and n == prev and rng.random() < 0.7:
+            n = prev + rng.choice([1, 5, 30]) if rng.random() < 0.5 else max(0, prev - rng.choice([1, 5, 30]))
+        if ver:
+            mt += rng.choice([0, 1, 3600, 3600, -3600, 86400])
+        steps.append({"write": {"size": n, "ver": ver, "mtime": mt, "how": rng.choice(["inplace", "inplace", "replace"])}})
+        for _ in range(rng.choice([1, 1, 2, 3])):
+            r = rng.random()
+            rv = gen_range(rng, n if prev is None or r < 0.6 else prev)
+            cond = gen_cond(rng)
+            if ver and rng.random() < 0.15:
+                cond = [("inm", "stale")] if rng.random() < 0.6 else [("ims", "stale")]
+            steps.append({"req": {"range": rv, "cond": cond, "method": rng.choice(["GET", "GET", "HEAD"])}})
+        prev = n
+    return {"hist": {"name": rng.choice(HIST_NAMES), "steps": steps}}
+
+
 def gen_cases(spec):
     rng = core.rng_for(spec["seed"], PROP, spec["shard"])
     for _ in range(spec["n"]):
+        if rng.random() < 0.1:
+            yield gen_history(rng)
+            continue
         n = rng.choice(SIZES)
         yield {"size": n, "range": gen_range(rng, n), "cond": gen_cond(rng), "method": rng.choice(["GET", "GET", "HEAD"])}
 
@@ -119,6 +163,14 @@ def directed_cases():
     yield {"size": 10, "range": "bytes=2-5", "cond": [("inm", "exact")], "method": "HEAD"}
     yield {"size": 10, "range": None, "cond": [("ims", 0)], "method": "GET"}
     yield {"size": 10, "range": None, "cond": [("ims", -1)], "method": "GET"}
+    # a path that is rewritten between requests: shorter, longer, same length
+    W = lambda n, v, mt, how="inplace": {"write": {"size": n, "ver": v, "mtime": mt, "how": how}}      # noqa: E731
+    R = lambda rv, m="GET", cond=(): {"req": {"range": rv, "cond": list(cond), "method": m}}            # noqa: E731
+    yield {"hist": {"name": "m0.bin", "steps": [W(50, 0, 0), R(None), R("bytes=5-14"), W(80, 1, 3600), R(None), R("bytes=-10"), R("bytes=60-"),
+                                                W(20, 2, 7200, "replace"), R("bytes=-10", "HEAD"), R(None), R("bytes=15-"),
+                                                W(20, 3, 7200), R(None, "GET", [("inm", "stale")]), R("bytes=0-4")]}}
+    yield {"hist": {"name": "sub/m2.bin", "steps": [W(10, 0, 0), R("bytes=2-5", "HEAD"), W(0, 1, 0), R(None), R("bytes=0-"),
+                                                    W(300, 2, -3600), R("bytes=250-", "GET"), R(None, "GET", [("ims", "stale")])]}}
 
 
 # ------------------------------------------------------------------ oracle
@@ -176,11 +228,24 @@ def httpdate(t, style="fix"):
     return "%s, %02d %s %04d %02d:%02d:%02d GMT" % (DAYS[dt.weekday()], dt.day, MONTHS[dt.month - 1], dt.year, dt.hour, dt.minute, dt.second)
 
 
-def build_cond(conds, etag: str):
-    """-> (headers, verdict) verdict in must304 | mustnot304 | unspec | none"""
+def build_cond(conds, etag: str, mtime=MTIME, stale=None):
+    """-> (headers, verdict) verdict in must304 | mustnot304 | unspec | none
+    `stale` = (etag, mtime) of the previous version of a rewritten file, for the "stale" validators."""
     headers = []
     inm_v = ims_v = None
     for kind, spec in conds:
+        if spec == "stale":
+            if stale is None:
+                continue
+            if kind == "inm":
+                headers.append(("If-None-Match", stale[0]))
+                # a validator of other content: RFC 7232 compares opaque strings; equal strings (same content
+                # again) would legitimately match
+                inm_v = "mustnot304" if stale[0] != etag else "must304"
+            else:
+                headers.append(("If-Modified-Since", httpdate(stale[1])))
+                ims_v = "must304" if stale[1] >= mtime else "mustnot304"
+            continue
         if kind == "inm":
             other = '"0123456789abcdef"'
             val, inm_v = {
@@ -193,7 +258,7 @@ def build_cond(conds, etag: str):
             headers.append(("If-None-Match", val))
         else:
             if isinstance(spec, int):
-                headers.append(("If-Modified-Since", httpdate(MTIME + spec)))
+                headers.append(("If-Modified-Since", httpdate(mtime + spec)))
                 ims_v = "must304" if spec >= 0 else "mustnot304"
             elif spec == "garbage":
                 headers.append(("If-Modified-Since", "yesterday-ish"))
@@ -205,7 +270,7 @@ def build_cond(conds, etag: str):
                 headers.append(("If-Modified-Since", ""))
                 ims_v = "unspec"
             else:
-                headers.append(("If-Modified-Since", httpdate(MTIME + 5, spec)))
+                headers.append(("If-Modified-Since", httpdate(mtime + 5, spec)))
                 ims_v = "unspec"
     if inm_v is not None:
         # RFC 7232 §3.3/§6: If-Modified-Since is ignored when If-None-Match is present
@@ -220,6 +285,7 @@ def make_session(lm):
     fx = Fixture(extra_files=extra)
     for n in SIZES:
         os.utime(fx.root + "/s%d.bin" % n, (MTIME, MTIME))
+    os.makedirs(fx.root + "/sub", exist_ok=True)
     app = tornado.web.Application([(r"/f/(.*)", tornado.web.StaticFileHandler, {"path": fx.root})], log_function=lambda h: None)
     s = webrig.Session(app, lm)
     s.fx = fx
@@ -261,7 +327,7 @@ def judge(ctx, case, r, F, rcls, cverdict, wit):
     if r.status not in (200, 206, 304, 416):
         return bad(f"status-{r.status}", "status outside {200,206,304,416}")
     ctx.count(f"status_{r.status}")
-    if r.status != 304 and r.framing != "cl":
+    if r.status != 304 and not head_only and r.framing != "cl":      # (a HEAD response has no body to frame)
         return bad(f"framing-{r.framing}", "static response not framed by Content-Length")
     if cverdict == "must304":
         ctx.count("expect_304_evals")
@@ -355,6 +421,8 @@ def _rshape(v):
 
 
 async def acase(case, ctx, sess):
+    if "hist" in case:
+        return await ahistory(case, ctx, sess)
     n = case["size"]
     F = content(n)
     et = await baseline(ctx, sess, n)
@@ -409,6 +477,208 @@ async def acase(case, ctx, sess):
         ctx.count("unspecified_range_forms")
     if ctx.mark((n, rv, tuple(case["cond"]), case["method"]), nontriv) and nontriv and rcls[0] == "ignore":
         ctx.sample(wit)
+
+
+class _Recorder:
+    """ctx view that holds violations back until the caller has classified them (counters pass through unless
+    `silent`)."""
+
+    def __init__(self, ctx, silent=False):
+        self._ctx, self._silent = ctx, silent
+        self.pending = []
+
+    def count(self, key, n=1):
+        if not self._silent:
+            self._ctx.count(key, n)
+
+    def violation(self, mechanism, what, witness):
+        self.pending.append((mechanism, what, witness))
+
+    def flush(self, prefix=""):
+        for mechanism, what, witness in self.pending:
+            self._ctx.violation(prefix + mechanism, what, witness)
+        del self.pending[:]
+
+
+def write_version(path, data, mtime, how):
+    if how == "replace":
+        tmp = path + ".new"
+        with open(tmp, "wb") as f:
+            f.write(data)
+        os.utime(tmp, (mtime, mtime))
+        os.replace(tmp, path)
+    else:
+        with open(path, "wb") as f:
+            f.write(data)
+        os.utime(path, (mtime, mtime))
+
+
+async def ahistory(case, ctx0, sess):
+    """Write / request steps on one path; each response is judged against the file as it is at that moment.
+
+    A failing request is repeated on a path that has never been served before and holds the same bytes and mtime:
+    if it is answered correctly there, the failure is attributed to the rewrite (mechanism prefix `rewritten-file/`),
+    otherwise it is the history-independent defect the plain cases report under the same key."""
+    h = case["hist"]
+    ctx = _Recorder(ctx0)
+    path = "/f/" + h["name"]
+    fs_path = sess.fx.root + "/" + h["name"]
+    F = None
+    mtime = None
+    etag = None            # ETag of the current version once a plain GET has shown it
+    prev = None            # (etag, mtime, size) of the previous version
+    nreq_since_write = 0
+    size_changed = False
+    nontriv = False
+    last = {}              # the request being judged (for the fresh-path probe)
+    ctx.count("history_cases")
+    webrig.safety(ctx0, sess, None, "request before the history")      # late log records belong to earlier cases
+
+    async def do(method, headers, target=None, rec=None):
+        try:
+            return await sess.request(webrig.build_request(method, target or path, headers), method)
+        except webrig.WireError as e:
+            (rec or ctx).violation(f"wire/{e.kind}", "response is not a well-framed HTTP message",
+                                   {"why": e.why, "raw": e.raw, "file_size": len(F), "history": h})
+            return False
+
+    async def correct_on_fresh_path():
+        if not last:
+            return False
+        sess.fresh_paths = getattr(sess, "fresh_paths", 0) + 1
+        rel = "fresh/p%d.bin" % sess.fresh_paths
+        os.makedirs(sess.fx.root + "/fresh", exist_ok=True)
+        write_version(sess.fx.root + "/" + rel, F, mtime, "inplace")
+        null = _Recorder(ctx0, silent=True)
+        sess.take_uncaught()
+        for method in ([last["method"]] if last["method"] == "GET" else ["HEAD", "GET"]):
+            r = await do(method, last["headers"], "/f/" + rel, null)
+            if r is False or r is None or sess.take_uncaught():
+                return False
+            if not judge(null, {"method": method, "range": last["range"], "cond": last["cond"]}, r, F, last["rcls"], last["cverdict"], {}):
+                return False
+        return not null.pending
+
+    async def settle_violations():
+        if ctx.pending:
+            ctx0.count("history_fresh_path_probes")
+            ctx.flush("rewritten-file/" if await correct_on_fresh_path() else "")
+            return True
+        return False
+
+    async def current_etag():
+        nonlocal etag
+        if etag is None:
+            last.update(method="GET", headers=[], range=None, cond=[], rcls=classify_range(None, len(F)), cverdict="none")
+            r = await do("GET", [])
+            ctx.count("oracle_evals")
+            if r is False:
+                return None
+            webrig.safety(ctx, sess, r, "static request after rewrite")
+            if r is None or r.status != 200 or r.body != F or not r.get("etag"):
+                ctx.violation("plain-get-not-exact", "GET without Range/conditionals is not 200 + the current file + ETag",
+                              {"file_size": len(F), "status": r and r.status, "body_len": r and len(r.body),
+                               "content_length": r and r.get("content-length"), "history": h})
+                return None
+            etag = r.get("etag").decode("latin-1")
+        return etag
+
+    async def request_step(q):
+        """-> False to abandon the history (a violation is pending or the exchange cannot be judged)."""
+        nonlocal etag, nreq_since_write, nontriv
+        n = len(F)
+        needs_etag = any(k == "inm" for k, _ in q["cond"])
+        stale = None
+        if any(sp == "stale" for _, sp in q["cond"]) and prev is not None and prev[0] is not None:
+            stale = (prev[0], prev[1])
+        et = None
+        if needs_etag:
+            et = await current_etag()
+            if et is None:
+                return False
+        headers, cverdict = build_cond(q["cond"], et, mtime, stale)
+        rv = q["range"]
+        if rv is not None:
+            headers = [("Range", rv)] + headers
+        rcls = classify_range(rv, n)
+        first = q["method"]
+        last.update(method=first, headers=headers, range=rv, cond=q["cond"], rcls=rcls, cverdict=cverdict)
+        r = await do(first, headers)
+        if r is False:
+            return False
+        wit = {"size": n, "range": rv, "cond_headers": headers, "range_class": list(rcls), "cond_verdict": cverdict, "method": first,
+               "status": r.status if r else None, "content_range": r.get("content-range") if r else None,
+               "content_length": r.get("content-length") if r else None, "body_len": len(r.body) if r else None,
+               "previous_version": prev and {"size": prev[2], "mtime": prev[1]}, "mtime": mtime, "history": h}
+        if not webrig.safety(ctx, sess, r, "static request on a rewritten path"):
+            return False
+        if r is None:
+            ctx.violation("no-response", "connection closed without a response", wit)
+            return False
+        if r.status == 400 and rv is not None and re.search(r"[\x00-\x08\x0a-\x1f\x7f]", rv):
+            ctx.count("skipped_http_layer_reject")
+            return True
+        if prev is not None:
+            ctx.count("history_requests_after_rewrite")
+            if size_changed:
+                ctx.count("history_size_changed_evals")
+                nontriv = True
+            if nreq_since_write == 0 and not needs_etag:
+                if rcls[0] in ("range", "unsat"):
+                    ctx.count("history_first_after_rewrite_ranged")
+                if first == "HEAD":
+                    ctx.count("history_first_after_rewrite_head")
+            if stale is not None:
+                ctx.count("history_stale_validator_evals")
+        nreq_since_write += 1
+        if first == "HEAD" and r.body:
+            ctx.violation("head-with-body", "HEAD response carries a body", wit)
+            return False
+        if not judge(ctx, {"method": first, "range": rv, "cond": q["cond"]}, r, F, rcls, cverdict, wit):
+            return False
+        if r.status == 200 and rv is None and not q["cond"] and first == "GET" and r.get("etag"):
+            etag = r.get("etag").decode("latin-1")
+        if first == "HEAD":
+            # the GET for the same request must agree with the HEAD (and is judged with its body)
+            rg = await do("GET", headers)
+            if rg is False:
+                return False
+            if not webrig.safety(ctx, sess, rg, "static GET after HEAD"):
+                return False
+            if rg is None:
+                ctx.violation("no-response", "connection closed without a response", wit)
+                return False
+            if not judge(ctx, {"method": "GET", "range": rv, "cond": q["cond"]}, rg, F, rcls, cverdict,
+                         dict(wit, method="GET", status=rg.status, content_range=rg.get("content-range"),
+                              content_length=rg.get("content-length"), body_len=len(rg.body))):
+                return False
+            ctx.count("head_pair_evals")
+            ctx.count("oracle_evals")
+            same = r.status == rg.status and all(
+                r.get(x) == rg.get(x) for x in ("content-length", "content-range", "etag", "last-modified", "content-type", "accept-ranges"))
+            if not same:
+                ctx.violation("head-differs-from-get", "HEAD does not yield the same status and headers as GET",
+                              dict(wit, head_headers=r.headers, get_headers=rg.headers))
+                return False
+        return True
+
+    for step in h["steps"]:
+        if "write" in step:
+            w = step["write"]
+            if F is not None:
+                prev = (etag, mtime, len(F))
+                ctx.count("history_rewrites")
+            F = vcontent(w["size"], w["ver"])
+            mtime = MTIME + w["mtime"]
+            write_version(fs_path, F, mtime, w["how"])
+            size_changed = prev is not None and prev[2] != len(F)
+            etag = None
+            nreq_since_write = 0
+            continue
+        go_on = await request_step(step["req"])
+        if await settle_violations() or not go_on:
+            return
+    ctx0.mark(("hist", h["name"], repr(h["steps"])), nontriv)
 
 
 def run_shard(spec, ctx):
